@@ -364,6 +364,8 @@ def server_work(item):
                 w.settle()
             except Livelock:
                 problems.append({"kind": "server-loops-forever"})
+            if w.livelocked:
+                problems.append({"kind": "server-loops-forever", "how": w.livelocked})
             tr = [[c for c, _ in r] for _, r in healthy.transcript]
             if not problems and (tr != solo[0] or healthy.data is None or healthy.data.received != solo[1]):
                 problems.append({"kind": "healthy-session-disturbed", "got": tr, "solo": solo[0]})
@@ -407,6 +409,8 @@ def server_work(item):
                                replay={"server": [shape, state, (line[1] if isinstance(line, tuple) else line).decode("latin-1")]})
         finally:
             rig.close()
+        if any(v["sig"]["kind"] == "server-loops-forever" for v in part.violations):
+            break       # every further line of this chunk would burn the watchdog time again
     part.sample({"hostile_lines": [repr(l)[:60] for l in lines[:3]], "login_state": state}, limit=1)
     return part
 
